@@ -370,4 +370,29 @@ example : easter_num 2000.7 = (4, 23) ∧ easter_num (-0.5) = easter 0 ∧ jewis
     gregorian2moslem_num 1991.5 8.5 13.5 = .ok (1412, 2, 2) ∧ gregorian2moslem_num 1991 12.5 1 = .error .valueError := by
   refine ⟨?_, ?_, ?_, ?_, ?_, ?_, ?_, ?_⟩ <;> decide +kernel
 
+/-- Coherence of the two Pesach clauses for EVERY Hebrew year (not only those of 1..3000): in the
+    arithmetic calendar of Spec/Hebrew.lean Rosh Hashanah never falls on a Sunday, Wednesday or Friday
+    (lo ADU rosh), hence 15 Nisan, 163 days earlier, always falls on a Sunday, Tuesday, Thursday or
+    Saturday -- the weekday clause follows from the "= 15 Nisan" clause. -/
+theorem nisan15_weekday_rule (h : Int) :
+    (Hebrew.roshHashanah h + 1) % 7 ≠ 0 ∧ (Hebrew.roshHashanah h + 1) % 7 ≠ 3 ∧ (Hebrew.roshHashanah h + 1) % 7 ≠ 5 ∧
+    ((Hebrew.nisan15 h + 1) % 7 = 0 ∨ (Hebrew.nisan15 h + 1) % 7 = 2 ∨ (Hebrew.nisan15 h + 1) % 7 = 4 ∨
+     (Hebrew.nisan15 h + 1) % 7 = 6) := by
+  have key : ∀ k : Int, Hebrew.roshHashanahDay k % 7 ≠ 0 ∧ Hebrew.roshHashanahDay k % 7 ≠ 3 ∧
+      Hebrew.roshHashanahDay k % 7 ≠ 5 := by
+    intro k
+    unfold Hebrew.roshHashanahDay
+    dsimp only
+    generalize (if Hebrew.moladParts k % 25920 ≥ 18 * 1080 then Hebrew.moladParts k / 25920 + 1
+      else if Hebrew.moladParts k / 25920 % 7 = 2 ∧ Hebrew.moladParts k % 25920 ≥ 9 * 1080 + 204 ∧ Hebrew.leap k = false
+        then Hebrew.moladParts k / 25920 + 2
+      else if Hebrew.moladParts k / 25920 % 7 = 1 ∧ Hebrew.moladParts k % 25920 ≥ 15 * 1080 + 589 ∧
+          Hebrew.leap (k - 1) = true then Hebrew.moladParts k / 25920 + 1
+      else Hebrew.moladParts k / 25920) = d1
+    split_ifs <;> omega
+  have k1 := key h
+  have k2 := key (h + 1)
+  unfold Hebrew.nisan15 Hebrew.roshHashanah
+  omega
+
 end Pymeeus.C19
